@@ -945,6 +945,7 @@ func (w *world) retainedKnowledge() (map[int][]rkEvent, map[string]bool) {
 	}
 	// the scenario's retained publishes, per node and topic, in execution order
 	ops := map[int]map[string][]int64{}
+	acked := map[int]map[string]int{} // retained publishes (set or clear) the node acknowledged, per topic
 	for si, s := range w.c.Steps {
 		if s.K != "pub" || !s.F || w.txStamp(si, s.C, tPUBLISH) < 0 {
 			continue
@@ -961,6 +962,12 @@ func (w *world) retainedKnowledge() (map[int][]rkEvent, map[string]bool) {
 			ops[cl.node] = map[string][]int64{}
 		}
 		ops[cl.node][key] = append(ops[cl.node][key], w.stepOrd[si])
+		if ok, at := w.ackSeen(s.C, cl.epoch, tPUBACK, int(s.I), w.txStamp(si, s.C, tPUBLISH)); s.Q == 1 && ok && at+2000 < w.nowMs() {
+			if acked[cl.node] == nil {
+				acked[cl.node] = map[string]int{}
+			}
+			acked[cl.node][key]++
+		}
 	}
 	for n, byKey := range local {
 		for key, ups := range byKey {
@@ -982,12 +989,27 @@ func (w *world) retainedKnowledge() (map[int][]rkEvent, map[string]bool) {
 			}
 		}
 	}
+	// every retained publish a node has acknowledged - a set or a clear, whether or not the node
+	// held anything for the topic - is an update of the replicated state that the node records and
+	// gossips: fewer updates than acknowledgements means one was applied nowhere
+	w.retainedUnrecorded = nil
+	for n, byKey := range acked {
+		for key, k := range byKey {
+			if len(local[n][key]) < k {
+				w.retainedUnrecorded = append(w.retainedUnrecorded, fmt.Sprintf("node %d acknowledged %d retained publishes on %s and recorded %d updates", n, k, strings.TrimPrefix(key, "R|"), len(local[n][key])))
+			}
+		}
+	}
+	sort.Strings(w.retainedUnrecorded)
 	return out, unaligned
 }
 
 func judgeRetained(w *world) {
 	endMs := w.nowMs()
 	know, unaligned := w.retainedKnowledge()
+	if len(w.retainedUnrecorded) > 0 {
+		w.o.violate("C07", "retained-update-not-recorded", len(w.c.Steps), endMs, nil, "%s (the last operation on a topic must decide what is replayed, on every node: an acknowledged set or clear that leaves no update behind cannot)", w.retainedUnrecorded[0])
+	}
 	type window struct{ from, to int64 }
 	windows := map[int][]window{}
 	judged, wild, unsettled := 0, 0, 0
